@@ -60,6 +60,7 @@ type shimBConn struct {
 	closed chan struct{} // closed when the read loop ends (peer closed / error)
 	pushed int64         // push-only mode: messages written so far
 	drop   chan struct{} // stalled mode: closed by the harness to make the backend drop the TCP connection
+	resume chan struct{} // paused mode: closed by the harness to let the backend read again
 	cerr   string
 }
 
@@ -103,7 +104,7 @@ func (b *shimBackend) serve(w http.ResponseWriter, r *http.Request) {
 	}
 	token := r.Header.Get("X-Verif-Conn")
 	c := &shimBConn{token: token, uri: r.RequestURI, host: r.Host, hdr: r.Header.Clone(),
-		ready: make(chan struct{}), notify: make(chan struct{}), closed: make(chan struct{}), drop: make(chan struct{})}
+		ready: make(chan struct{}), notify: make(chan struct{}), closed: make(chan struct{}), drop: make(chan struct{}), resume: make(chan struct{})}
 	b.mu.Lock()
 	b.conns[token] = c
 	b.mu.Unlock()
@@ -129,6 +130,15 @@ func (b *shimBackend) serve(w http.ResponseWriter, r *http.Request) {
 	if ms, _ := strconv.Atoi(r.Header.Get("X-Verif-Noread")); ms > 0 {
 		c.pushOnly(time.Duration(ms) * time.Millisecond)
 		return
+	}
+	if ms, _ := strconv.Atoi(r.Header.Get("X-Verif-Pause")); ms > 0 {
+		// a backend that is busy for a while: it does not read (the agent's writer parks in its TCP
+		// write once the socket buffers, a few MiB, are full) and then carries on as if nothing had
+		// happened. The receive buffer is left alone: shrinking it clamps the window for good.
+		select {
+		case <-c.resume: // the harness says when the backend gets back to work ...
+		case <-time.After(time.Duration(ms) * time.Millisecond): // ... at the latest after this long
+		}
 	}
 	slow, _ := strconv.Atoi(r.Header.Get("X-Verif-Slowread")) // ms spent on every message before the next read
 	for {
@@ -221,6 +231,15 @@ func (c *shimBConn) stall() {
 	c.mu.Unlock()
 	c.ws.Close()
 	close(c.closed)
+}
+
+// resumeNow lets a paused backend start reading.
+func (c *shimBConn) resumeNow() {
+	select {
+	case <-c.resume:
+	default:
+		close(c.resume)
+	}
 }
 
 // dropNow makes a stalled backend drop its TCP connection.
